@@ -274,6 +274,11 @@ PLANS = {
             S("c15_conc", 400, 8000),
 S("c15_reqqueue", 400, 12000),   # REQ with requests queued before the connection exists, raw peer that never reads (scenarios/c15c_reqqueue.cc)
                         S("c15_pipelined", 800, 24000),  # REP against a raw REQ peer that pipelines requests and reads no replies (scenarios/c15b_pipelined.cc)
+            # the message that raises the receive descriptor is consumed while it is being queued: by the completion
+            # callback of a pending (context) receive that drains the socket non-blockingly, or by a second task
+            # (scenarios/c15d_cbdrain.cc; SUB, PULL, PAIR0/1, REP, RESPONDENT)
+            S("c15_cbdrain", 800, 24000),
+            S("c15_cbdrain", 400, 12000, label="sub", kind=0),  # SUB: socket subscription + contexts matching the same message
         ],
         "assumptions": ["'library quiescent' is realised by sim_quiesce (no runnable thread, nothing in flight, no timer due within 3 ms)",
                         "clause (e) 'does the work when it can' is asserted only in states where the message-accounting model is exact "
